@@ -77,6 +77,18 @@ def log(entry):
 
 
 def die():
+    global KILL
+    if KILL.get("mode") == "interrupt":
+        # death by exception (SIGINT at this point): the interpreter unwinds, context managers and finally blocks
+        # run, and whatever they do to the watched directory is logged like any other operation
+        for f in list(state["open"]):  # as a normally exiting interpreter would: nothing stays in CPython's buffer
+            try:
+                f.flush()
+            except Exception:
+                pass
+        log(["interrupted", state["done"]])
+        KILL = None
+        raise KeyboardInterrupt("injected at operation %d" % state["done"])
     if KILL.get("flush", True):
         for f in list(state["open"]):
             try:
